@@ -46,7 +46,9 @@ func runC20(r *Run) {
 	runC20Sweeps(r)
 	for ver := 0; ver <= 2; ver++ {
 		for knows := 0; knows <= 1; knows++ {
-			lcRecoverReservation(r, ver, knows == 1)
+			lcRecoverReservation(r, ver, knows == 1, false)
+			// the wallet's transaction listing fails during the recovery
+			lcRecoverReservation(r, ver, knows == 1, true)
 		}
 	}
 	rounds := 1
@@ -58,7 +60,11 @@ func runC20(r *Run) {
 			for ver := 0; ver <= 2; ver++ {
 				for knows := 0; knows <= 1; knows++ {
 					for inLatest := 0; inLatest <= 1; inLatest++ {
-						lcRecoverCase(r, srv, ver, knows == 1, inLatest == 1)
+						lcRecoverCase(r, srv, ver, knows == 1, inLatest == 1, false)
+						if srv <= 1 {
+							// wallet fault while the funding tx has to be located
+							lcRecoverCase(r, srv, ver, knows == 1, inLatest == 1, true)
+						}
 					}
 				}
 			}
@@ -97,7 +103,7 @@ func lcReported(st auctioneerrpc.AuctionAccountState, ver uint32, fundTx, latest
 	}, nil
 }
 
-func lcRecoverCase(r *Run, srv, ver int, knows, inLatest bool) {
+func lcRecoverCase(r *Run, srv, ver int, knows, inLatest, walletFault bool) {
 	e := newLcEnv(r)
 	defer e.close()
 	if err := e.mgr.Start(); err != nil {
@@ -147,8 +153,10 @@ func lcRecoverCase(r *Run, srv, ver int, knows, inLatest bool) {
 	logFrom := len(e.log)
 	e.logMu.Unlock()
 	derivesBefore := e.signer.n
+	e.wallet.failList = walletFault
 	rerr := lcGuard(func() error { return e.mgr.RecoverAccount(context.Background(), acct) })
-	line := fmt.Sprintf("recover %d %d %d %d", srv, ver, b2i(knows), b2i(inLatest))
+	e.wallet.failList = false
+	line := fmt.Sprintf("recover %d %d %d %d %d", srv, ver, b2i(knows), b2i(inLatest), b2i(walletFault))
 	outLine := fmt.Sprintf("%s | %s | %s", lcRes(rerr), e.dump(), e.effects(logFrom))
 	r.Emit("C20 "+line, outLine)
 	r.Evaluations++
@@ -172,8 +180,25 @@ func lcRecoverCase(r *Run, srv, ver int, knows, inLatest bool) {
 	if rec.Secret != lcSecret || e.signer.n == derivesBefore {
 		bad("account secret not re-derived from the signer", "C20/secret")
 	}
-	found := knows || (inLatest && srv != int(auctioneerrpc.AuctionAccountState_STATE_PENDING_OPEN))
+	viaReport := inLatest && srv != int(auctioneerrpc.AuctionAccountState_STATE_PENDING_OPEN)
+	found := knows || viaReport
+	recheck := srv == int(auctioneerrpc.AuctionAccountState_STATE_PENDING_OPEN) ||
+		srv == int(auctioneerrpc.AuctionAccountState_STATE_OPEN)
 	switch {
+	case recheck && walletFault && !viaReport:
+		// the wallet could not be asked: that is not "funding unknown" - the account
+		// must not be written off (it stays as added and recovery reports the error)
+		r.Count("case/wallet-fault")
+		if rec.State == account.StateCanceledAfterRecovery {
+			bad("the wallet's transaction listing failed, yet the account was marked canceled-after-recovery",
+				"C20/canceled-on-wallet-fault")
+		}
+		if rerr == nil {
+			bad("the wallet's transaction listing failed but RecoverAccount reported success", "C20/fault-swallowed")
+		}
+	case recheck && found && rec.State == account.StateCanceledAfterRecovery:
+		bad("the funding output is known (wallet or reported latest tx) but the account was marked canceled-after-recovery",
+			"C20/canceled-though-known")
 	case (srv == int(auctioneerrpc.AuctionAccountState_STATE_PENDING_OPEN) ||
 		srv == int(auctioneerrpc.AuctionAccountState_STATE_OPEN)) && !found:
 		r.Count("case/unknown-funding")
@@ -202,7 +227,7 @@ func lcRecoverCase(r *Run, srv, ver int, knows, inLatest bool) {
 // (the trader lost its data before InitAccount reached the auctioneer) is
 // rebuilt by the REAL key sweep (AcctResNotCompletedErrFromRPC,
 // incompleteAcctFromErr) and recovered by the REAL manager.
-func lcRecoverReservation(r *Run, ver int, knows bool) {
+func lcRecoverReservation(r *Run, ver int, knows, walletFault bool) {
 	e := newLcEnv(r)
 	defer e.close()
 	if err := e.mgr.Start(); err != nil {
@@ -240,8 +265,10 @@ func lcRecoverReservation(r *Run, ver int, knows bool) {
 	e.logMu.Lock()
 	logFrom := len(e.log)
 	e.logMu.Unlock()
+	e.wallet.failList = walletFault
 	rerr := lcGuard(func() error { return e.mgr.RecoverAccount(context.Background(), acct) })
-	line := fmt.Sprintf("recoverres %d %d %d", id, ver, b2i(knows))
+	e.wallet.failList = false
+	line := fmt.Sprintf("recoverres %d %d %d %d", id, ver, b2i(knows), b2i(walletFault))
 	outLine := fmt.Sprintf("%s | %s | %s", lcRes(rerr), e.dump(), e.effects(logFrom))
 	r.Emit("C20 "+line, outLine)
 	r.Evaluations++
@@ -259,6 +286,14 @@ func lcRecoverReservation(r *Run, ver int, knows bool) {
 		return
 	}
 	r.Count(fmt.Sprintf("reservation/%v", rec.State))
+	if walletFault {
+		r.Count("case/wallet-fault")
+		if rec.State == account.StateCanceledAfterRecovery {
+			bad("the wallet's transaction listing failed, yet the reserved account was marked canceled-after-recovery",
+				"C20/canceled-on-wallet-fault")
+		}
+		return
+	}
 	if !knows {
 		if rec.State != account.StateCanceledAfterRecovery {
 			bad(fmt.Sprintf("unfunded reservation stored as %v", rec.State), "C20/not-canceled")
